@@ -22,6 +22,11 @@ SIX = set(STRONG) | set(WEAK)
 INHERENT = {"actor_ref::ActorRef": "actor_ref::ActorRef::<T>::", "actor_ref::ActorWeak": "actor_ref::ActorWeak::<T>::"}
 FORWARDED = {"tell", "tell_with_timeout", "blocking_tell", "ask", "ask_with_timeout", "blocking_ask", "identity", "is_alive", "stop", "kill"}
 WRAP_CALLS = {"futures_util::future::future::FutureExt::boxed"}
+WRAP_DEFS = {"std::boxed::Box::<T>::pin"}      # `Box::pin(fut)` is what `fut.boxed()` does
+
+
+def _is_wrap(term):
+    return (fn_path(term) or "") in WRAP_CALLS or (callee(term) or "") in WRAP_DEFS
 FMT_OK = ("core::fmt::", "std::fmt::")
 
 
@@ -103,14 +108,14 @@ def trait_method(run, f, d, fn, trait, self_ty):
     nparams = body.arg_count
 
     def only_calls(allowed_defs, allowed_paths=()):
-        extra = [callee(b.term) for b in calls if callee(b.term) not in allowed_defs and (fn_path(b.term) or "") not in allowed_paths]
+        extra = [callee(b.term) for b in calls if callee(b.term) not in allowed_defs and (fn_path(b.term) or "") not in allowed_paths and not (allowed_paths and _is_wrap(b.term))]
         return extra
 
     if m in FORWARDED:
         K = prefix + m
         # through boxed() for futures
         core = ret
-        if core[0] == "call" and fn_path(tr.call_term(core[1])) in WRAP_CALLS:
+        if core[0] == "call" and _is_wrap(tr.call_term(core[1])):
             core, _ = peel(tr, tr.norm(tr.call_args(core[1])[0]))
         okc = core[0] == "call" and core[2] == K
         if not run.require(okc, "O16.1", "callee:%s" % key, "%s returns %s instead of forwarding to %s" % (key, show(ret), K), "forwards to %s" % K, loc=loc):
@@ -162,6 +167,29 @@ def trait_method(run, f, d, fn, trait, self_ty):
                     if is_box_new(ctr, cret):
                         cin = strip_refs(ctr.norm(ctr.call_args(cret[1])[0]))
                         clos_ok = cin == ("param", 2) and cdyns and all(x == want for x in cdyns) and len(list(live_calls(cb))) == 1
+        if not (okc and clos_ok):
+            # the same mapping written with `?`: `let strong = ActorWeak::upgrade(self)?; Some(Box::new(strong))`
+            from sendpaths import norm_try
+            r2 = norm_try(tr, tr.local(0))
+            mem = list(r2[1]) if r2[0] == "phi" else [r2]
+            def is_up(t):
+                t = strip_refs(t)
+                return t[0] == "call" and t[2] == K and strip_refs(tr.norm(tr.call_args(t[1])[0])) == ("param", 1)
+            n_some = n_none = 0
+            for mm in mem:
+                core2, d2 = peel(tr, mm)
+                if core2[0] == "try_err" and is_up(core2[1]):
+                    n_none += 1
+                elif core2[0] == "agg" and core2[1][:3] == ("adt", "std::option::Option", "Some"):
+                    inner, d3 = peel(tr, core2[2][0])
+                    if is_box_new(tr, inner):
+                        x = norm_try(tr, tr.call_args(inner[1])[0])
+                        dd = list(d2) + list(d3)
+                        if x[0] == "try_ok" and is_up(x[1]) and dd and all(z == want for z in dd):
+                            n_some += 1
+            if n_some == 1 and n_none == 1 and len(mem) == 2:
+                okc = clos_ok = True
+                calls = [b for b in calls if (fn_path(b.term) or "") not in ("core::ops::try_trait::Try::branch", "core::ops::try_trait::FromResidual::from_residual") and not is_box_new(tr, ("call", b.idx, callee(b.term) or ""))]
         run.require(okc and clos_ok, "O16.2", "upgrade:%s" % key, "%s is not ActorWeak::upgrade(self).map(|r| Box::new(r) as Box<dyn %s>): %s" % (key, want, show(ret)),
                     "ActorWeak::upgrade(self).map(box into dyn %s)" % want.split("::")[-1], loc=loc)
         extra = [callee(b.term) for b in calls if callee(b.term) != K and not (callee(b.term) or "").endswith("Option::<T>::map")]
@@ -209,6 +237,12 @@ def from_impl(run, f, d, fn):
         okc = inner[0] == "call" and fn_path(tr.call_term(inner[1])) == "core::clone::Clone::clone" and strip_refs(tr.norm(tr.call_args(inner[1])[0])) == ("param", 1)
     elif okc:
         okc = inner == ("param", 1)
+    if not okc and byref and ret[0] == "call" and ret[2] == want + "::clone_boxed" and strip_refs(tr.norm(tr.call_args(ret[1])[0])) == ("param", 1) \
+            and len(body_calls(f, body)) == 1:
+        # `From<&X>` delegating to X's own clone_boxed (statically dispatched; that method is Box::new(self.clone()) by O16.2)
+        run.ok("O16.4", "from:%s" % key, "delegates to <%s as %s>::clone_boxed" % (src_ty.peel_refs().s[:30], want.split("::")[-1]), loc=loc)
+        run.ok("O16.4", "no-extra-calls:%s" % key, "no other call", loc=loc)
+        return
     run.require(okc and dyns and all(x == want for x in dyns), "O16.4", "from:%s" % key, "%s returns %s" % (key, show(ret)),
                 "Box::new(%s) as Box<dyn %s>" % ("arg.clone()" if byref else "arg", want.split("::")[-1]), loc=loc)
     extra = [callee(b.term) for b in body_calls(f, body) if not (is_box_new(tr, ("call", b.idx, callee(b.term) or "")) or fn_path(b.term) == "core::clone::Clone::clone")]
